@@ -34,7 +34,14 @@ PROP_TIES = {
             'Position.totalPnl', 'Position.updatePrice', 'Position.transactBuy', 'Position.transactSell', 'Position.transact',
             'Position.openFrom'],
     'C15': _keys('Position', 'transact', ['err']) + _keys('Position', 'updatePrice', ['err']),
+    'C04': ['Broker.makeTxn'],
+    'C05': ['Broker.makeTxn', 'PercentFee.totalCost', 'ZeroFee.totalCost'],
+    'C10': ['DW.normalise', 'DW.quantity', 'PercentFee.totalCost', 'ZeroFee.totalCost'],
+    'C11': ['LS.normalise', 'LS.quantity', 'PercentFee.totalCost', 'ZeroFee.totalCost'],
+    'C08': ['Broker.makeTxn', 'PercentFee.totalCost', 'ZeroFee.totalCost', 'DW.normalise', 'DW.quantity', 'LS.normalise', 'LS.quantity',
+            'Position.net', 'Position.marketValue'] + _keys('Position', 'transact', _POS_FIELDS_QTY) + _keys('Position', 'openFrom', _POS_FIELDS_QTY),
 }
+_UNIT_OF = {'PercentFee': 'Kernels', 'ZeroFee': 'Kernels', 'DW': 'Kernels', 'LS': 'Kernels', 'Broker': 'Kernels'}
 
 
 def _lean_errors(path):
@@ -66,7 +73,7 @@ def run_ties(prop=None):
     import hashlib
     wanted = None
     if prop is not None:
-        wanted = set(k.split('.')[0] for k in PROP_TIES.get(prop, []))
+        wanted = set(_UNIT_OF.get(k.split('.')[0], k.split('.')[0]) for k in PROP_TIES.get(prop, []))
         if not wanted:
             return {}, ''
     # which proofs failed for exactly this source was found out by an earlier run: start from there
